@@ -518,6 +518,9 @@ pub fn install_panic_hook() {
             .location()
             .map(|l| format!("{}:{}", l.file(), l.line()))
             .unwrap_or_default();
+        if ::std::env::var_os("VERIF_DEBUG_PANIC").is_some() {
+            eprintln!("PANIC: {} @ {}", msg, loc);
+        }
         let recorded = try_with(|c| {
             c.panics += 1;
             c.push(PluginEvent::Panic(format!("{} @ {}", msg, loc)));
